@@ -26,6 +26,7 @@ import (
 
 const (
 	cAccept    = "every coercible variable value is accepted"
+	cForward   = "the variables after admission are the list-coerced form of the variables the client sent"
 	cReject    = "every non-coercible variable value is rejected"
 	cNameVar   = "a rejection names the offending variable"
 	cNameField = "a rejection names the input field enclosing the fault"
@@ -41,6 +42,7 @@ type spaceCfg struct {
 	MaxDepth  int
 	Budget    int
 	PairItems bool
+	Combos    int // see genCfg.combos
 	// FarDepth: list depth bound at the positions listfield and nested
 	FarDepth int
 	Double   int // pairs of field deviations in the probed input object: 0 never, 1 list depth 0 only, 2 list depth <= 1
@@ -57,7 +59,7 @@ type space struct {
 }
 
 func newSpace(cfg spaceCfg) *space {
-	return &space{cfg: cfg, gen: &genCfg{u: baseUniverse(), pairItems: cfg.PairItems},
+	return &space{cfg: cfg, gen: &genCfg{u: baseUniverse(), pairItems: cfg.PairItems, combos: cfg.Combos},
 		groups: groups(cfg.Ctxs, cfg.MaxDepth, cfg.FarDepth), fam: map[string][]gval{}, ctxs: map[string]*gctx{}}
 }
 
@@ -214,13 +216,14 @@ type failure struct {
 }
 
 type evalResult struct {
-	lab    labelResult
-	adm    admission
-	gq     string
-	gqMsg  string
-	status string // judged | ambiguous | oracle_split
-	alone  bool   // judged by the label alone (scalar leaf / oneOf)
-	fails  []failure
+	lab       labelResult
+	adm       admission
+	gq        string
+	gqMsg     string
+	gqRetried bool   // second opinion given on the []-for-null equivalent (see eval)
+	status    string // judged | ambiguous | oracle_split
+	alone     bool   // judged by the label alone (scalar leaf / oneOf)
+	fails     []failure
 }
 
 type oracles struct {
@@ -320,6 +323,24 @@ func (o *oracles) eval(c *tcase) *evalResult {
 		gqVars = ""
 	}
 	r.gq, r.gqMsg = gqVerdict(gs, gop, gqVars)
+	if r.gq == "panic" && gqVars != "" {
+		// gqlparser panics on a null item whose type is a nullable list. null and []
+		// are both always valid there, so the second opinion is asked about the
+		// verdict-equivalent value with [] in place of such nulls.
+		o2 := &jv{K: jObj}
+		for _, m := range prov {
+			v := m.V
+			for _, vd := range c.gc.vars {
+				if vd.Name == m.Key {
+					v = gqSanitize(c.gc.u, vd.T, v)
+				}
+			}
+			o2.O = append(o2.O, jkv{m.Key, v})
+		}
+		if v2, m2 := gqVerdict(gs, gop, o2.String()); v2 != "panic" {
+			r.gq, r.gqMsg, r.gqRetried = v2, m2, true
+		}
+	}
 
 	if r.adm.Stage == "panic" {
 		r.fails = append(r.fails, failure{Clause: cNoPanic, Detail: "panic: " + r.adm.Msg})
@@ -376,6 +397,13 @@ func (o *oracles) eval(c *tcase) *evalResult {
 		}
 	}
 
+	// forwarded value: label and engine agree on acceptance
+	if r.status == "judged" && r.lab.coercible() && r.adm.Accepted && r.adm.Stage != "panic" {
+		if d := forwardedDiff(c, prov, r.adm.FinalVars); d != "" {
+			r.fails = append(r.fails, failure{Clause: cForward, Detail: "variables after admission: " + r.adm.FinalVars + " | " + d})
+		}
+	}
+
 	// message clauses: whenever label and engine agree on rejection
 	if r.status == "judged" && !r.lab.coercible() {
 		check := func(msg string, hidden bool) {
@@ -429,6 +457,79 @@ func (o *oracles) eval(c *tcase) *evalResult {
 		}
 	}
 	return r
+}
+
+// gqSanitize replaces null ITEMS whose type is a nullable list by [].
+func gqSanitize(u universe, t *typ, v *jv) *jv {
+	switch {
+	case t.isList() && v.K == jArr:
+		out := &jv{K: jArr}
+		for _, it := range v.A {
+			if it.K == jNull && t.Elem.isList() && !t.Elem.NonNull {
+				out.A = append(out.A, jarr())
+				continue
+			}
+			out.A = append(out.A, gqSanitize(u, t.Elem, it))
+		}
+		return out
+	case t.isList():
+		return gqSanitize(u, t.Elem, v)
+	case v.K == jObj:
+		d := u[t.Name]
+		if d == nil || d.Kind != kInput {
+			return v
+		}
+		out := &jv{K: jObj}
+		for _, m := range v.O {
+			if f := d.field(m.Key); f != nil {
+				out.O = append(out.O, jkv{m.Key, gqSanitize(u, f.T, m.V)})
+			} else {
+				out.O = append(out.O, m)
+			}
+		}
+		return out
+	}
+	return v
+}
+
+// forwardedDiff compares the variables after admission with the list-coerced
+// form of the provided ones ("" = they match). Members added for absent
+// variables / input fields that declare a default are admissible.
+func forwardedDiff(c *tcase, prov provided, final string) string {
+	got := jobj()
+	if final != "" && final != "null" {
+		g, err := parseJV(final)
+		if err != nil || g.K != jObj {
+			return "not a JSON object"
+		}
+		got = g
+	}
+	for _, vd := range c.gc.vars {
+		pv, has := prov.get(vd.Name)
+		gv, ghas := got.get(vd.Name)
+		switch {
+		case has && !ghas:
+			return "variable " + vd.Name + " is missing"
+		case has:
+			if d := forwardedMatches(c.gc.u, vd.T, coercedValue(c.gc.u, vd.T, pv), gv, vd.Name); d != "" {
+				return d
+			}
+		case ghas && vd.Default == "":
+			return "variable " + vd.Name + " was added"
+		}
+	}
+	for _, m := range got.O {
+		known := false
+		for _, vd := range c.gc.vars {
+			if vd.Name == m.Key {
+				known = true
+			}
+		}
+		if !known {
+			return "member " + m.Key + " was added"
+		}
+	}
+	return ""
 }
 
 // history compares the re-used validator instances with the fresh ones on the
@@ -515,6 +616,19 @@ func probePos(ctx string) string {
 // they are ignored when candidates for a representative are looked up.
 var wrapperTags = map[string]bool{"as list item": true, "as second list item": true, "second object of list": true, "single value for list": true}
 
+func coreTags(tags []string) []string {
+	seen := map[string]bool{}
+	var t []string
+	for _, x := range tags {
+		if !wrapperTags[x] && !seen[x] {
+			seen[x] = true
+			t = append(t, x)
+		}
+	}
+	sort.Strings(t)
+	return t
+}
+
 func coreTagClass(tags []string) string {
 	var t []string
 	for _, x := range tags {
@@ -525,7 +639,7 @@ func coreTagClass(tags []string) string {
 	return tagClass(t)
 }
 
-var multiTags = map[string]bool{"null item first of two": true, "null item second of two": true, "as second list item": true, "second object of list": true}
+var multiTags = map[string]bool{"several items": true, "null item first of two": true, "null item second of two": true, "as second list item": true, "second object of list": true}
 
 // feat are the features of a failing case that a simpler representative must
 // not add (a representative R stands for a case C only if R <= C).
@@ -618,6 +732,8 @@ func sameDefect(ca *tcase, ra *evalResult, a failure, cb *tcase, rb *evalResult,
 		return a.Hidden == b.Hidden && a.F != nil && b.F != nil && faultSig(*a.F) == faultSig(*b.F)
 	case cAccept:
 		return a.Hidden == b.Hidden && ra.adm.Stage == rb.adm.Stage
+	case cForward:
+		return true
 	case cNoPanic:
 		return ra.adm.PanicSite == rb.adm.PanicSite
 	case cNoEcho:
@@ -660,6 +776,12 @@ func classify(c *tcase, r *evalResult, fl failure) (site, class string) {
 			parts = append(parts, probePos(g.Ctx)+" expecting "+leafClass(c.gc.u, named(g.T.base())))
 		}
 		return pre + "stage " + r.adm.Stage + "; " + strings.Join(parts, " and ") + suffix, tagClass(c.tags())
+	case cForward:
+		var parts []string
+		for _, g := range c.gc.groups {
+			parts = append(parts, probePos(g.Ctx)+" expecting "+leafClass(c.gc.u, named(g.T.base())))
+		}
+		return pre + strings.Join(parts, " and ") + suffix, tagClass(c.tags())
 	case cReject:
 		f := *fl.F
 		s := f.Pos
@@ -749,7 +871,8 @@ type shrinker struct {
 	o       *oracles
 	built   bool
 	byFault map[string]*candList // faultSig -> cases whose label has exactly that one fault
-	byTags  map[string]*candList // core tag class @ base -> all cases
+	byTags  map[string]*candList // core tag class -> all cases (any base type)
+	tagSets map[string][]string  // core tag class -> its tags
 	byBase  map[string][]caseRef // base -> all cases (panic search)
 	memo    map[string]*shrunk
 	evals   int
@@ -791,6 +914,7 @@ func (s *shrinker) build() {
 	s.built = true
 	s.byFault = map[string]*candList{}
 	s.byTags = map[string]*candList{}
+	s.tagSets = map[string][]string{}
 	s.byBase = map[string][]caseRef{}
 	size := map[caseRef]int{}
 	get := func(m map[string]*candList, k string) *candList {
@@ -808,7 +932,11 @@ func (s *shrinker) build() {
 		if len(lab.Faults) == 1 {
 			get(s.byFault, faultSig(lab.Faults[0])).add(featOf(c, failure{F: &lab.Faults[0]}), ref)
 		}
-		get(s.byTags, coreTagClass(c.tags())+" @ "+baseClasses(c)).add(featOf(c, failure{}), ref)
+		tk := coreTagClass(c.tags())
+		if _, ok := s.tagSets[tk]; !ok {
+			s.tagSets[tk] = coreTags(c.tags())
+		}
+		get(s.byTags, tk).add(featOf(c, failure{}), ref)
 		return true
 	})
 	// simplest first: group order (position, list depth, base type, non-nulls, default), then size of the variables
@@ -846,14 +974,42 @@ func (s *shrinker) representative(c *tcase, r *evalResult, fl failure) *shrunk {
 	s.build()
 	ft := featOf(c, fl)
 	base := baseClasses(c)
-	var cl *candList
+	var lists []*candList
 	sig := ""
 	if fl.F != nil {
 		sig = "F|" + faultSig(*fl.F)
-		cl = s.byFault[faultSig(*fl.F)]
+		if cl := s.byFault[faultSig(*fl.F)]; cl != nil {
+			lists = append(lists, cl)
+		}
 	} else {
-		sig = "T|" + coreTagClass(c.tags()) + " @ " + base
-		cl = s.byTags[coreTagClass(c.tags())+" @ "+base]
+		// every tag class whose tags are a subset of the failing case's, fewest tags first
+		sig = "T|" + coreTagClass(c.tags())
+		mine := map[string]bool{}
+		for _, t := range coreTags(c.tags()) {
+			mine[t] = true
+		}
+		var keys []string
+		for k, ts := range s.tagSets {
+			sub := true
+			for _, t := range ts {
+				if !mine[t] {
+					sub = false
+					break
+				}
+			}
+			if sub {
+				keys = append(keys, k)
+			}
+		}
+		sort.Slice(keys, func(i, j int) bool {
+			if len(s.tagSets[keys[i]]) != len(s.tagSets[keys[j]]) {
+				return len(s.tagSets[keys[i]]) < len(s.tagSets[keys[j]])
+			}
+			return keys[i] < keys[j]
+		})
+		for _, k := range keys {
+			lists = append(lists, s.byTags[k])
+		}
 	}
 	extra := ""
 	switch fl.Clause {
@@ -889,40 +1045,43 @@ func (s *shrinker) representative(c *tcase, r *evalResult, fl failure) *shrunk {
 				break
 			}
 		}
-	} else if cl != nil {
-	classes:
-		for _, f := range cl.classes {
-			if !f.le(ft) {
-				continue
-			}
-			refs := cl.byClass[f.key()]
-			var picks []caseRef
-			nb := 0
-			for _, ref := range refs { // the first of the same base type ...
-				if leafClass(s.sp.gen.u, named(s.sp.groups[ref.gi].T.base())) == base {
+	} else {
+	lists:
+		for _, cl := range lists {
+			for _, f := range cl.classes {
+				if !f.le(ft) {
+					continue
+				}
+				refs := cl.byClass[f.key()]
+				var picks []caseRef
+				for i, ref := range refs { // the first overall ...
+					if i >= picksPerClass {
+						break
+					}
 					picks = append(picks, ref)
+				}
+				nb := 0
+				for _, ref := range refs { // ... and the first of the same base type
+					if leafClass(s.sp.gen.u, named(s.sp.groups[ref.gi].T.base())) != base {
+						continue
+					}
+					dup := false
+					for _, p := range picks {
+						if p == ref {
+							dup = true
+						}
+					}
+					if !dup {
+						picks = append(picks, ref)
+					}
 					if nb++; nb >= picksPerClass {
 						break
 					}
 				}
-			}
-			for i, ref := range refs { // ... and the first overall
-				if i >= picksPerClass {
-					break
-				}
-				dup := false
-				for _, p := range picks {
-					if p == ref {
-						dup = true
+				for _, ref := range picks {
+					if try(ref, ft, true) {
+						break lists
 					}
-				}
-				if !dup {
-					picks = append(picks, ref)
-				}
-			}
-			for _, ref := range picks {
-				if try(ref, ft, true) {
-					break classes
 				}
 			}
 		}
@@ -1076,6 +1235,9 @@ func account(run *vk.Run, c *tcase, r *evalResult) {
 	if r.adm.HiddenRan && !r.adm.HiddenAccepted {
 		run.Count("hidden_content_rejections_checked", 1)
 	}
+	if r.gqRetried {
+		run.Count("gqlparser_asked_about_[]_for_null_equivalent_after_panic", 1)
+	}
 	first := "coercible"
 	if len(r.lab.Faults) > 0 {
 		first = r.lab.Faults[0].Kind
@@ -1099,9 +1261,9 @@ func account(run *vk.Run, c *tcase, r *evalResult) {
 
 func tierSpace(thorough bool) spaceCfg {
 	if thorough {
-		return spaceCfg{Ctxs: ctxOrder, MaxDepth: 2, FarDepth: 2, Budget: 3, PairItems: true, Double: 2}
+		return spaceCfg{Ctxs: ctxOrder, MaxDepth: 2, FarDepth: 2, Budget: 3, PairItems: true, Double: 2, Combos: 2}
 	}
-	return spaceCfg{Ctxs: ctxOrder, MaxDepth: 2, FarDepth: 1, Budget: 2, PairItems: true, Double: 0}
+	return spaceCfg{Ctxs: ctxOrder, MaxDepth: 2, FarDepth: 1, Budget: 2, PairItems: true, Double: 0, Combos: 1}
 }
 
 // shrinkSpace is the (tier independent) space in which representatives are
@@ -1121,6 +1283,19 @@ func TestCheck(t *testing.T) {
 		t.Fatalf("INFRA: %v", err)
 	}
 	o := newOracles()
+	// which edition of the list coercion table the implementation follows for a
+	// non-list item inside a list of lists: taken from the simplest such input,
+	// then demanded everywhere (label, model_test.go nestedItemMode)
+	switch p := admit(o.eng.get("type Query { probe(arg: [[Int]]): String }\n"), "query($xa: [[Int]]) { probe(arg: $xa) }", `{"xa":[7731]}`, nil); {
+	case p.Stage == "panic":
+		run.Bound("nested_list_item_reading", "not judged (the probe panicked)")
+	case p.Accepted:
+		nestedItemMode = nestedWrap
+		run.Bound("nested_list_item_reading", "September 2025 / graphql-js: [[Int]] <- [7731] is wrapped to [[7731]] (taken from the implementation, demanded everywhere)")
+	default:
+		nestedItemMode = nestedError
+		run.Bound("nested_list_item_reading", "October 2021: [[Int]] <- [7731] is an error (taken from the implementation, demanded everywhere)")
+	}
 	sh := &shrinker{sp: newSpace(shrinkSpace()), o: o, memo: map[string]*shrunk{}}
 	sh.sp.keepAll = true
 	defer func() {
@@ -1169,6 +1344,8 @@ func TestCheck(t *testing.T) {
 		"scalar leaves and oneOf are judged by the label alone and only for the pairs the spec text settles (DESIGN.md C06 table); 1.0/1e3 for Int and ID, numbers beyond 2^53 / not finite, and a non-list item inside a list of lists are not judged",
 		"variable and input-field default literals are valid (generated valid, checked by operation validation of both implementations)",
 		"variables are used at a position of exactly their declared type",
+		"a non-list item inside a list of lists is an error in the October 2021 edition and wrapped in the September 2025 edition: the reading is taken from the implementation's verdict on [[Int]] <- [7731] and then demanded for every type, position and item index",
+		"forwarded-value clause: for accepted coercible requests the variables after normalization must equal the provided ones with single values wrapped wherever a list is expected; members added for absent variables / input fields that declare a default are admissible and their value is not judged",
 		"history clause: per process one VariablesValidator with and one without DisableExposingVariablesContent are re-used for every request (also the shrinker's) right after the fresh instances; verdict and full message text must equal the fresh instance's on the same input; after a mismatch or a panic the re-used instances are replaced; the enumeration alternates acceptable and unacceptable inputs (transitions counted in the evidence)",
 		"the admission sequence replayed through exported APIs equals ExecutionEngine.Execute up to ValidateWithRemap (default engine options)",
 	)
@@ -1179,6 +1356,7 @@ func TestCheck(t *testing.T) {
 	run.Bound("wrapper_patterns_per_base_type", len(wrappers("Int", cfg.MaxDepth)))
 	run.Bound("input_object_deviation_budget", cfg.Budget)
 	run.Bound("list_pair_items", cfg.PairItems)
+	run.Bound("list_item_combinations", map[int]string{0: "none", 1: "length 2 over {null, plain, items needing (inner) coercion, wrong kind}, length 3 over {null, plain, item needing coercion}, every order", 2: "lengths 2 and 3 over {null, plain, items needing (inner) coercion, wrong kind}, every order"}[cfg.Combos])
 	run.Bound("groups", len(sp.groups))
 	run.Bound("max_simultaneous_field_deviations", map[int]string{0: "1", 1: "2 where the probed type is not a list, else 1", 2: "2 up to list depth 1, else 1"}[cfg.Double])
 
@@ -1209,7 +1387,7 @@ func TestCheck(t *testing.T) {
 		pairCfg := spaceCfg{Ctxs: []string{"top", "field"}, MaxDepth: 1, FarDepth: 1, Budget: 0, PairItems: false}
 		if run.Thorough() {
 			pairCfg = tierSpace(false)
-			pairCfg.MaxDepth, pairCfg.FarDepth, pairCfg.PairItems = 1, 1, false
+			pairCfg.MaxDepth, pairCfg.FarDepth, pairCfg.PairItems, pairCfg.Combos = 1, 1, false, 0
 		}
 		pairs(run, sh, o, pairCfg)
 	}
